@@ -16,7 +16,7 @@ RULE = ("Three generated families with closed-form laws: (i) linear progression 
         "[0.1,5], N in [5,50] individuals and horizon with k*T in [0.2,3] (or, declared with two-sided limits (0,N), N in [2,8] observed late so that the absorbing compartment fills up to its limit): occupancy at T summed over M runs is Binomial(N*M, p_j(T)), read either from the raw path of a scalar-horizon run or from the gridded output solve_stochast(grid, M, exact=True) at every requested time incl. the last one, "
         "with p(T) from the matrix exponential of the chain generator; (ii) SIR with N in [8,30], R0 in [0.5,4] run to extinction: "
         "final-size pmf from dynamic programming over the embedded jump chain, one exact binomial test per size class (classes with "
-        "expected count < 20 pooled); (iii) 2-4 competing constant/linear events from a fixed state, M independent first steps of the "
+        "expected count < 20 pooled); (iv) immigration with total catastrophes (a magnitude that is the current value of the state): X(T) against the closed-form mixture of Poisson laws; (iii) 2-4 competing constant/linear events from a fixed state, M independent first steps of the "
         "first-reaction step function: sum of waiting times ~ Gamma(M, total rate), counts below the theoretical 25/50/75% quantiles and "
         "event-identity counts ~ Binomial. Every test uses an exact acceptance region at alpha = 1e-8/20000 (<= 20000 tests per run). "
         "Non-trivial = every tested category has expected count >= 20; distinct by parameter tuple.")
@@ -43,7 +43,7 @@ def strategy(tier):
 
     @st.composite
     def case(draw):
-        fam = draw(st.sampled_from(["chain", "sir", "first-step"]))
+        fam = draw(st.sampled_from(["chain", "chain", "sir", "sir", "first-step", "first-step", "catastrophe"]))
         seed = draw(st.integers(0, 2 ** 32 - 1))
         if fam == "chain":
             n = draw(st.integers(2, 4))
@@ -62,6 +62,12 @@ def strategy(tier):
                 fr = sorted(set(draw(st.lists(st.sampled_from([0.2, 0.35, 0.5, 0.65, 0.8]), min_size=1, max_size=3))))
                 c["grid_fractions"] = fr + [1.0]
             return c
+        if fam == "catastrophe":
+            # immigration at rate lam, total catastrophes (the whole population leaves at once: magnitude = the state) at
+            # rate c; closed form: X(T) = x0 + Poisson(lam T) with probability exp(-cT), else Poisson(lam A), A the time
+            # since the last catastrophe with density c exp(-c a) on (0,T)
+            return {"family": fam, "lam": draw(S.fl(0.5, 4.0, 3)), "c": draw(S.fl(0.2, 1.5, 3)), "x0": draw(st.integers(0, 6)),
+                    "T": draw(S.fl(0.8, 4.0, 3)), "M": M // 2, "np_seed": seed}
         if fam == "sir":
             N = draw(st.integers(8, 30))
             gamma = draw(S.fl(0.3, 2.0, 3))
@@ -176,6 +182,44 @@ def oracle(case, rec):
                 _check_count("C05/chain/occupancy", case, "occupancy of compartment %d at T=%g" % (j + 1, T), int(occ[j]), N * M, float(p[j]))
                 tests += 1
                 min_expected = min(min_expected, N * M * min(p[j], 1 - p[j]))
+    elif fam == "catastrophe":
+        from scipy.integrate import quad
+        from scipy.stats import poisson
+        lam, c, x0c, T = case["lam"], case["c"], case["x0"], case["T"]
+        m = {"state_decl": [{"name": "X", "lims": None}], "params": ["lam", "c"], "derived": [], "odes": [],
+             "events": [{"rate": ir.P("lam"), "trans": [{"kind": "B", "o": None, "d": "X", "mag": {"int": 1}, "birth_by": "destination"}]},
+                        {"rate": ir.P("c"), "trans": [{"kind": "D", "o": "X", "d": None, "mag": {"state": "X"}}]}]}
+        su = {"x0": [x0c], "theta": [lam, c], "t0": 0.0}
+        model, order = stoch.prepare(m, su)
+        Xs, _c, Ts = stoch.simulate("C05", "C05/catastrophe", case, stoch.run_raw, model, T, M, True, case["np_seed"])
+        finals = []
+        for X, tt in zip(Xs, Ts):
+            idx = int(np.searchsorted(np.asarray(tt, float), T, side="right") - 1)
+            finals.append(int(round(float(np.asarray(X, float)[idx][0]))))
+        finals = np.array(finals)
+
+        def pmf(k):
+            none = np.exp(-c * T) * (poisson.pmf(k - x0c, lam * T) if k >= x0c else 0.0)
+            some = quad(lambda a: c * np.exp(-c * a) * poisson.pmf(k, lam * a), 0.0, T, epsabs=1e-13, epsrel=1e-12)[0]
+            return none + some
+        kmax = int(x0c + lam * T + 12 * np.sqrt(lam * T + 1) + 10)
+        probs = np.array([pmf(k) for k in range(kmax + 1)])
+        if abs(probs.sum() - 1) > 1e-7:
+            raise Inconclusive("closed-form pmf does not sum to one")
+        pooled_p, pooled_c = 0.0, 0
+        for k, pk in enumerate(probs):
+            ck = int((finals == k).sum())
+            if M * pk >= 20:
+                _check_count("C05/catastrophe/population", case, "population %d at T=%g" % (k, T), ck, M, float(pk))
+                tests += 1
+                min_expected = min(min_expected, M * min(pk, 1 - pk))
+            else:
+                pooled_p += pk
+                pooled_c += ck
+        pooled_c += int((finals > kmax).sum())
+        if M * pooled_p >= 20:
+            _check_count("C05/catastrophe/population", case, "pooled rare population sizes", pooled_c, M, float(pooled_p))
+            tests += 1
     elif fam == "sir":
         N, I0, beta, gamma = case["N"], case["I0"], case["beta"], case["gamma"]
         m = _sir_model()
